@@ -162,6 +162,7 @@ func (c *consumer) ConsumePartition(topic string, partition int32, offset int64)
 	go withRecover(child.responseFeeder)
 
 	child.broker = c.refBrokerConsumer(leader)
+	verifGate("pc.subscribe", child.topic, child.partition)
 	child.broker.input <- child
 
 	return child, nil
